@@ -15,14 +15,16 @@ JudgeOne(i) ==
       l1 == Run(FS0, <<>>, o.hist)
       v0 == Verdict(o.hist, o.st, ObsFS(o), l1)
       \* byte-offset reader faults / truncations (C12: success means the whole archive; C01: nothing outside changes)
+      \* (every field below already exists in v0: EXCEPT, not @@, which would keep v0's value)
       vf == [v0 EXCEPT !.c12 = v0.c12 /\ o.fault_silent = 0,
+                       !.w12 = v0.w12 \cup (IF o.fault_silent = 0 THEN {} ELSE Seq2Set(o.fault_notes)),
                        !.c01 = v0.c01 /\ o.fault_outside = 0 /\ o.mut_outside = 0,
                        !.w01 = v0.w01 \cup (IF o.fault_outside = 0 THEN {} ELSE Seq2Set(o.fault_notes))
                                       \cup (IF o.mut_outside = 0 THEN {} ELSE Seq2Set(o.mut_notes)),
-                       !.kf01 = IF o.fault_outside = 0 /\ o.mut_outside = 0 THEN v0.kf01 ELSE ""]
-               \* corrupted variants of the archive (C19: none panics or hangs; C01: none changes anything outside dst)
-               @@ [c19 |-> o.st # "panic" /\ o.mut_bad = 0,
-                   w19 |-> (IF o.st = "panic" THEN {o.err} ELSE {}) \cup (IF o.mut_bad = 0 THEN {} ELSE Seq2Set(o.mut_notes)), kf19 |-> ""] @@ [w12 |-> IF o.fault_silent = 0 /\ v0.c12 THEN {} ELSE Seq2Set(o.fault_notes) \cup (IF v0.c12 THEN {} ELSE {"policy rejection reported as a plain error"})]
+                       !.kf01 = IF o.fault_outside = 0 /\ o.mut_outside = 0 THEN v0.kf01 ELSE "",
+                       \* corrupted variants of the archive (C19: none panics or hangs; C01: none changes anything outside dst)
+                       !.c19 = o.st # "panic" /\ o.mut_bad = 0,
+                       !.w19 = (IF o.st = "panic" THEN {o.err} ELSE {}) \cup (IF o.mut_bad = 0 THEN {} ELSE Seq2Set(o.mut_notes))]
   IN PrintT("@@" \o ToJson([fam |-> "judge", idx |-> i,
                             v |-> vf,
                             l1 |-> [st |-> l1.st, why |-> l1.why, v |-> Verdict(o.hist, l1.st, l1.fs, l1)]]))
